@@ -1410,6 +1410,16 @@ def main(repo: str, outdir: str, dry: bool = False) -> int:
         return (HEADER + "import Optyx.Py.Compile\n\nset_option linter.unusedVariables false\n\n"
                 "namespace Optyx.Generated\nopen Optyx Optyx.Py\n\n" + body + "\nend Optyx.Generated\n")
 
+    def f_paramclass():
+        import py2lean
+        import py2lean_param
+        try:
+            body = py2lean_param.gen_param_class(src("core/parameters.py"))
+        except py2lean.TranslateError as e:
+            raise TranslateError(str(e))
+        return (HEADER + "set_option linter.unusedVariables false\n\n"
+                "namespace Optyx.Generated\n\n" + body + "\nend Optyx.Generated\n")
+
     def f_lpfast():
         import py2lean_lpfast
         try:
@@ -1471,7 +1481,7 @@ def main(repo: str, outdir: str, dry: bool = False) -> int:
                         ("DegreeStep", f_degstep), ("GradStep", f_gradstep), ("LPStep", f_lpstep), ("JacRowVec", f_jacrowvec),
                         ("ScipyPost", f_scipypost), ("ProblemEdit", f_problemedit),
                         ("ConstraintFns", f_constraintfns), ("SvsStep", f_svs), ("BuildStep", f_buildstep), ("Operators", f_operators), ("GradIterCtl", f_graditer), ("LPFast", f_lpfast), ("HookShape", f_hookshape), ("ClosurePaths", f_closurepaths), ("EvalStep", f_evalstep),
-                        ("VarsStep", f_varsstep), ("DegreeEntry", f_degentry), ("SymbolicJac", f_symjac), ("Spine", f_spine), ("VarsIter", f_varsiter), ("CompileEntry", f_entry)):
+                        ("VarsStep", f_varsstep), ("DegreeEntry", f_degentry), ("SymbolicJac", f_symjac), ("Spine", f_spine), ("VarsIter", f_varsiter), ("CompileEntry", f_entry), ("ParamClass", f_paramclass)):
         path = os.path.join(outdir, fname + ".lean")
         try:
             text = make()
